@@ -1721,6 +1721,229 @@ fn generate(rng: &mut Rng, tier: &str, w: &mut CaseWriter) {
             }
         }
     }
+    // ---- BOUNDARY VALUES of every numeric threshold of the four codec families (after the hostile
+    // block, deterministic except for filler bytes, so the cases above do not depend on them)
+    {
+        // -- name tokenizer: numeric deltas 254..258 (plain: parse_delta, zero-padded: parse_delta0,
+        // after Digits / Delta / PaddedDigits / Delta0 tokens), decreasing values, the u32 limit, digit
+        // widths around 255 / 256 (the width of a padded number is a byte), token counts 124..130
+        // (the 126th token is the unsplit remainder), name counts around 2^8 (thorough: 2^16)
+        let mut bn: Vec<Vec<u8>> = Vec::new();
+        let cat = |names: &[String]| -> Vec<u8> {
+            let mut o = Vec::new();
+            for n in names {
+                o.extend_from_slice(n.as_bytes());
+                o.push(0);
+            }
+            o
+        };
+        for base in [0u64, 1, 100, 999, 65280, 4294967040 - 3, 4294967040] {
+            for d in 253u64..=259 {
+                let m = base + d;
+                bn.push(cat(&[format!("r:1:{base}"), format!("r:1:{m}")]));
+                // a chain: the previous token is itself a Delta
+                bn.push(cat(&[format!("r:1:{base}"), format!("r:1:{}", base + 7), format!("r:1:{}", base + 7 + d)]));
+                // purely numeric names, and the number as first / last / middle token
+                bn.push(cat(&[format!("{base}"), format!("{m}")]));
+                bn.push(cat(&[format!("{base}:x"), format!("{m}:x")]));
+                // zero-padded, equal widths (Delta0) and a width change at the same values
+                for w in [6usize, 11] {
+                    bn.push(cat(&[format!("q{:0w$}", base, w = w), format!("q{:0w$}", m, w = w)]));
+                    bn.push(cat(&[format!("q{:0w$}", base, w = w), format!("q{:0w$}", base + 3, w = w), format!("q{:0w$}", base + 3 + d, w = w)]));
+                }
+                bn.push(cat(&[format!("q{:06}", base), format!("q{:07}", m)]));
+                // decreasing by the same amounts
+                bn.push(cat(&[format!("r:1:{m}"), format!("r:1:{base}")]));
+                bn.push(cat(&[format!("q{:011}", m), format!("q{:011}", base)]));
+            }
+        }
+        for v in [4294967294u64, 4294967295, 4294967296, 4294967297] {
+            bn.push(cat(&[format!("n{}", v - 255), format!("n{v}")]));
+            bn.push(cat(&[format!("n{}", v - 256), format!("n{v}")]));
+            bn.push(cat(&[format!("n0{}", v - 255), format!("n0{v}")]));
+        }
+        for k in [253usize, 254, 255, 256, 257, 258, 511, 512] {
+            // a zero-padded number of k digits, then the next one (Delta0 with the same width)
+            let z = "0".repeat(k - 1);
+            bn.push(cat(&[format!("x{z}7"), format!("x{z}9")]));
+            bn.push(cat(&[format!("x{z}7")]));
+            // a string token and a char run of that length
+            bn.push(cat(&[format!("{}:1", "a".repeat(k)), format!("{}:2", "a".repeat(k))]));
+        }
+        for k in 123usize..=131 {
+            // about k tokens: "a." repeated, then a number / a padded number / a string / '+' digits
+            for tail in ["7", "007", "zz", "+5", "300"] {
+                let mut n1 = String::new();
+                for t in 0..k - 1 {
+                    n1.push_str(if t % 2 == 0 { "a" } else { "." });
+                }
+                // (an alphanumeric tail merges with a preceding "a": the sweep over k covers both parities)
+                let n1 = format!("{n1}{tail}");
+                let n2 = n1.replace('7', "8");
+                bn.push(cat(&[n1.clone(), n2, n1]));
+            }
+        }
+        for cnt in [254usize, 255, 256, 257, 258] {
+            bn.push(cat(&(0..cnt).map(|i| format!("r{i}")).collect::<Vec<_>>()));
+            bn.push(cat(&(0..cnt).map(|i| if i % 2 == 0 { "dup".to_string() } else { format!("r{i}") }).collect::<Vec<_>>()));
+        }
+        if thorough {
+            for cnt in [65535usize, 65536, 65537] {
+                bn.push(cat(&(0..cnt).map(|i| format!("r{i}")).collect::<Vec<_>>()));
+            }
+        }
+        for src in &bn {
+            w.push("nme", vec![hex(src)]);
+            if src.len() > 4000 {
+                continue;
+            }
+            let Outcome::Done(Ok(enc)) = guarded(AssertUnwindSafe(|| v::name_tokenizer_encode(src))) else { continue };
+            w.push("nmd", vec![hex(&enc), hex(src)]);
+        }
+
+        // -- rANS 4x8 / Nx16 / AAC: raw totals around 4096 and 8192 (normalisation is the identity /
+        // an exact halving at the middle value), 65536 (thorough), with 1, 2, 15..17, 255, 256 symbols
+        // of which all but one occur once or twice (bumped to frequency 1 by the normalisation), and
+        // balanced two-symbol inputs; AAC: the model total reaches exactly 65519 (no halving) or one
+        // step more after (65519 - nsym) / 16 symbols
+        let mut tot: Vec<Vec<u8>> = Vec::new();
+        let mut lens = vec![4094usize, 4095, 4096, 4097, 4098, 8191, 8192, 8193];
+        if thorough {
+            lens.extend([2047, 2048, 2049, 16383, 16384, 16385, 65535, 65536, 65537]);
+        }
+        for &l in &lens {
+            for rare in [0usize, 1, 2, 15, 16, 17, 254, 255] {
+                for reps in [1usize, 2] {
+                    if rare * reps >= l || (rare == 0 && reps == 2) {
+                        continue;
+                    }
+                    let mut v = Vec::with_capacity(l);
+                    for r in 0..rare {
+                        for _ in 0..reps {
+                            v.push((r + 1) as u8);
+                        }
+                    }
+                    while v.len() < l {
+                        v.push(0);
+                    }
+                    // rare symbols spread over the input rather than in front
+                    let step = (l / (rare * reps).max(1)).max(1);
+                    let mut sp = vec![0u8; l];
+                    let mut used = vec![false; l];
+                    for (k, &b) in v.iter().take(rare * reps).enumerate() {
+                        let pos = (k * step + k % 3) % l;
+                        let mut q = pos;
+                        while used[q] {
+                            q = (q + 1) % l;
+                        }
+                        used[q] = true;
+                        sp[q] = b;
+                    }
+                    tot.push(sp);
+                }
+            }
+            for a in [l / 2 - 1, l / 2, l / 2 + 1] {
+                let mut v = vec![7u8; a];
+                v.extend(std::iter::repeat(9u8).take(l - a));
+                tot.push(v);
+            }
+        }
+        for (ti, src) in tot.iter().enumerate() {
+            for order in [0u64, 1] {
+                if src.len() <= 8200 || ti % 2 == order as usize {
+                    w.push("r4", vec![order.to_string(), hex(src)]);
+                }
+            }
+            for f in [0x00u8, 0x01, 0x04, 0x05] {
+                if src.len() <= 4100 || (ti + f as usize) % 3 == 0 {
+                    w.push("nfe", vec![f.to_string(), hex(src)]);
+                }
+            }
+        }
+        for nsym in [1usize, 2, 15, 16, 31, 47, 255, 256] {
+            let centre = (65519 - nsym) / 16;
+            for l in centre.saturating_sub(2)..=centre + 3 {
+                // symbol nsym-1 first (fixes the model size), then one dominant symbol
+                let mut v = vec![(nsym - 1) as u8];
+                v.extend(std::iter::repeat(0u8).take(l));
+                for f in [0x00u8, 0x01] {
+                    w.push("aae", vec![f.to_string(), hex(&v)]);
+                }
+            }
+        }
+
+        // -- run lengths at the byte / uint7 / base-4 digit boundaries (Nx16 RLE: uint7 run lengths;
+        // AAC RLE: digits 0..3, 3 = more; PACK: 8 / 4 / 2 symbols per byte)
+        let mut runs: Vec<Vec<u8>> = Vec::new();
+        let mut rl = vec![1usize, 2, 3, 4, 5, 6, 7, 8, 9, 10, 126, 127, 128, 129, 130, 254, 255, 256, 257, 258, 259];
+        if thorough {
+            rl.extend([16382, 16383, 16384, 16385, 16386, 65535, 65536, 65537]);
+        }
+        for &r in &rl {
+            let mut v = vec![5u8; r];
+            v.push(9);
+            v.extend(std::iter::repeat(5u8).take(r + 1));
+            v.extend([9, 9, 1]);
+            runs.push(v);
+            // one run only, and a run of every symbol of a 4-symbol alphabet (PACK applies as well)
+            runs.push(vec![200u8; r]);
+            let mut q = Vec::new();
+            for sy in [0u8, 1, 2, 3] {
+                q.extend(std::iter::repeat(sy).take(r));
+            }
+            runs.push(q);
+        }
+        for (ri, src) in runs.iter().enumerate() {
+            for f in [0x40u8, 0x41, 0xc0, 0x60, 0x80, 0x44] {
+                if src.len() > 3000 && (ri + f as usize) % 2 == 0 {
+                    continue;
+                }
+                w.push("nfe", vec![f.to_string(), hex(src)]);
+                if src.len() <= 1100 {
+                    if let Outcome::Done(Ok(enc)) = guarded(AssertUnwindSafe(|| v::rans_nx16_encode(rans_nx16::Flags::from(f), src))) {
+                        w.push("nfd", vec![f.to_string(), src.len().to_string(), hex(&enc), hex(src)]);
+                    }
+                }
+            }
+            for f in [0x40u8, 0x41, 0xc0, 0x80] {
+                if src.len() > 3000 && (ri + f as usize) % 2 == 0 {
+                    continue;
+                }
+                w.push("aae", vec![f.to_string(), hex(src)]);
+                if src.len() <= 1100 {
+                    if let Outcome::Done(Ok(enc)) = guarded(AssertUnwindSafe(|| v::aac_encode(aac::Flags::from(f), src))) {
+                        w.push("aad", vec![f.to_string(), src.len().to_string(), hex(&enc), hex(src)]);
+                    }
+                }
+            }
+        }
+
+        // -- fqzcomp: record lengths at the byte boundaries of the four length bytes, at the position
+        // table limit (1023) and at the shift classes of the first record (128, 256, 512)
+        let mut fl: Vec<Vec<usize>> = Vec::new();
+        for l in [1usize, 127, 128, 129, 255, 256, 257, 511, 512, 513, 1022, 1023, 1024, 1025, 1026] {
+            fl.push(vec![l]);
+            fl.push(vec![l, l]);
+            fl.push(vec![l, l + 1, l]);
+        }
+        if thorough {
+            for l in [65535usize, 65536, 65537] {
+                fl.push(vec![l]);
+                fl.push(vec![3, l, 3]);
+            }
+        }
+        for lens in &fl {
+            let total: usize = lens.iter().sum();
+            let src = shaped(rng, "qual", total);
+            let ls = lens.iter().map(|l| l.to_string()).collect::<Vec<_>>().join(",");
+            w.push("fqe", vec![ls, hex(&src)]);
+            if total <= 2100 {
+                if let Outcome::Done(Ok(enc)) = guarded(AssertUnwindSafe(|| v::fqzcomp_encode(lens, &src))) {
+                    w.push("fqd", vec![hex(&enc), hex(&src)]);
+                }
+            }
+        }
+    }
 }
 
 fn run(c: &Case) -> Obs {
